@@ -905,7 +905,7 @@ Returns:
         evalmon = self._evalmon
         raw = cost
         if ExtraArgs is None: ExtraArgs = ()
-        self._fcalls, cost = wrap_function(cost, ExtraArgs, evalmon)
+        self._fcalls, cost = wrap_function(cost, ExtraArgs, evalmon, start=self._fcalls[0])
         if self._useStrictRange:
             indx = list(self.popEnergy).index(self.bestEnergy)
             ngen = self.generations #XXX: no random if generations=0 ?
